@@ -173,6 +173,36 @@ impl<'ast> Visit<'ast> for Impls {
   }
 }
 
+/// every `static` item (at any depth) and every `thread_local!` / `lazy_static!` invocation outside `#[cfg(test)]`
+/// modules: state that outlives one `lint_file` call
+struct Statics {
+  file: String,
+  rows: Vec<(String, String, String, String)>,
+}
+impl<'ast> Visit<'ast> for Statics {
+  fn visit_item_mod(&mut self, n: &'ast syn::ItemMod) {
+    if is_cfg_test(&n.attrs) {
+      return;
+    }
+    syn::visit::visit_item_mod(self, n);
+  }
+  fn visit_item_static(&mut self, n: &'ast syn::ItemStatic) {
+    use syn::__private::ToTokens;
+    let ty: String = n.ty.to_token_stream().to_string().split_whitespace().collect::<Vec<_>>().join("");
+    let m = if matches!(n.mutability, syn::StaticMutability::Mut(_)) { "static mut" } else { "static" };
+    self.rows.push((self.file.clone(), m.to_string(), n.ident.to_string(), ty));
+    syn::visit::visit_item_static(self, n);
+  }
+  fn visit_macro(&mut self, n: &'ast syn::Macro) {
+    let name = n.path.segments.last().map(|s| s.ident.to_string()).unwrap_or_default();
+    if name == "thread_local" || name == "lazy_static" {
+      let body: String = n.tokens.to_string().split_whitespace().collect::<Vec<_>>().join(" ");
+      self.rows.push((self.file.clone(), format!("{}!", name), String::new(), body.chars().take(120).collect()));
+    }
+    syn::visit::visit_macro(self, n);
+  }
+}
+
 fn write_if_changed(path: &str, content: &str) {
   if std::fs::read_to_string(path).ok().as_deref() != Some(content) {
     std::fs::write(path, content).unwrap();
@@ -186,11 +216,14 @@ fn main() {
   rs_files(std::path::Path::new(&format!("{}/src", repo)), &mut files);
   let mut v = Impls { file: String::new(), rows: vec![], stops: vec![], cur_fn: vec![] };
   let mut ctx_rows: Vec<(String, Vec<String>)> = vec![];
+  let mut statics = Statics { file: String::new(), rows: vec![] };
   for p in &files {
     let src = std::fs::read_to_string(p).unwrap();
     let f = syn::parse_file(&src).unwrap_or_else(|e| panic!("parse {}: {}", p.display(), e));
     v.file = p.strip_prefix(&repo).unwrap_or(p).to_string_lossy().trim_start_matches('/').to_string();
     v.visit_file(&f);
+    statics.file = v.file.clone();
+    statics.visit_file(&f);
     if v.file.starts_with("src/rules/") {
       let mut c = CtxCalls(Default::default());
       c.visit_file(&f);
@@ -203,6 +236,13 @@ fn main() {
     t.push_str(&rows.join(",\n"));
     t.push_str("\n]\n\nend DL.Gen\n");
     write_if_changed(&format!("{}/CtxAccess.lean", out), &t);
+  }
+  {
+    let mut t = String::from("/-! GENERATED by harness/src/bin/translate2.rs (syn): every `static` item and every `thread_local!` / `lazy_static!`\ninvocation of src/ outside `#[cfg(test)]` modules: (file, kind, name, type). -/\nnamespace DL.Gen\n\ndef statics : List (String × String × String × String) := [\n");
+    let rows: Vec<String> = statics.rows.iter().map(|(a, b, c, d)| format!("  ({}, {}, {}, {})", lean_str(a), lean_str(b), lean_str(c), lean_str(d))).collect();
+    t.push_str(&rows.join(",\n"));
+    t.push_str("\n]\n\nend DL.Gen\n");
+    write_if_changed(&format!("{}/Statics.lean", out), &t);
   }
   let mut s = String::from("/-! GENERATED by harness/src/bin/translate2.rs (syn): every `visit_*` override of every `impl Visit for` in src/, with\nwhether each path through it recurses into the node's children (`always`), some traversal call exists (`sometimes`), or none (`never`). -/\nnamespace DL.Gen\n\n/-- (file, visitor type, method, class) for the overrides that do **not** always recurse -/\ndef visitNotAlways : List (String × String × String × String) := [\n");
   let rows: Vec<String> = v.rows.iter().filter(|r| r.3 != "always").map(|(a, b, c, d)| format!("  ({}, {}, {}, {})", lean_str(a), lean_str(b), lean_str(c), lean_str(d))).collect();
